@@ -51,6 +51,12 @@ pub const AT_STR_OFFSETS_BASE: u64 = 0x72;
 pub const AT_ADDR_BASE: u64 = 0x73;
 pub const AT_RNGLISTS_BASE: u64 = 0x74;
 pub const AT_LOCLISTS_BASE: u64 = 0x8c;
+pub const AT_DWO_NAME: u64 = 0x76; // DWARF 5 Table 7.5
+// GNU DebugFission (https://gcc.gnu.org/wiki/DebugFission) pre-standard split DWARF attributes
+pub const AT_GNU_DWO_NAME: u64 = 0x2130;
+pub const AT_GNU_DWO_ID: u64 = 0x2131;
+pub const AT_GNU_RANGES_BASE: u64 = 0x2132;
+pub const AT_GNU_ADDR_BASE: u64 = 0x2133;
 pub const AT_LO_USER_X: u64 = 0x2345; // an unassigned vendor attribute (DW_AT_lo_user = 0x2000 .. hi_user 0x3fff)
 
 // Table 7.6 form encodings
@@ -98,10 +104,16 @@ pub const FORM_ADDRX2: u64 = 0x2a;
 pub const FORM_ADDRX3: u64 = 0x2b;
 pub const FORM_ADDRX4: u64 = 0x2c;
 
+// GNU DebugFission forms
+pub const FORM_GNU_ADDR_INDEX: u64 = 0x1f01;
+pub const FORM_GNU_STR_INDEX: u64 = 0x1f02;
+
 // Table 7.2 unit header unit types
 pub const UT_COMPILE: u8 = 0x01;
 pub const UT_TYPE: u8 = 0x02;
 pub const UT_PARTIAL: u8 = 0x03;
+pub const UT_SKELETON: u8 = 0x04;
+pub const UT_SPLIT_COMPILE: u8 = 0x05;
 
 // Table 7.9 operation encodings
 pub const OP_ADDR: u8 = 0x03;
@@ -158,6 +170,9 @@ pub const OP_DEREF_TYPE: u8 = 0xa6;
 pub const OP_CONVERT: u8 = 0xa8;
 pub const OP_REINTERPRET: u8 = 0xa9;
 pub const OP_GNU_PARAMETER_REF: u8 = 0xfa;
+// GNU DebugFission operations
+pub const OP_GNU_ADDR_INDEX: u8 = 0xfb;
+pub const OP_GNU_CONST_INDEX: u8 = 0xfc;
 
 // Table 7.25/7.26 line number opcodes
 pub const LNS_COPY: u8 = 1;
@@ -201,6 +216,12 @@ pub const LLE_DEFAULT_LOCATION: u8 = 5;
 pub const LLE_BASE_ADDRESS: u8 = 6;
 pub const LLE_START_END: u8 = 7;
 pub const LLE_START_LENGTH: u8 = 8;
+// GNU DebugFission .debug_loc.dwo entry kinds (DW_LLE_GNU_*)
+pub const LLE_GNU_END_OF_LIST: u8 = 0;
+pub const LLE_GNU_BASE_ADDRESS_SELECTION: u8 = 1;
+pub const LLE_GNU_START_END: u8 = 2;
+pub const LLE_GNU_START_LENGTH: u8 = 3;
+pub const LLE_GNU_OFFSET_PAIR: u8 = 4;
 
 // Table 7.29 call frame instructions
 pub const CFA_ADVANCE_LOC: u8 = 0x40;
